@@ -199,10 +199,13 @@ def gen_schema(r, name, feat):
         n = fresh([x + "_l" for x in NAME_POOL])
         types.append({"name": n, "def": {"k": "agg", "agg": r.choice(["LIST", "SET", "BAG"]), "lo": 0, "hi": None, "elem": {"k": r.choice(["int", "real", "string"])}}})
         agg_defs.append(n)
+    renamed_pair = None
     if feat.get("renamed_types") and simple_defs:
         n = fresh([x + "_r" for x in NAME_POOL])
-        types.append({"name": n, "def": {"k": "def", "name": r.choice(simple_defs)}})
+        base = r.choice(simple_defs)
+        types.append({"name": n, "def": {"k": "def", "name": base}})
         simple_defs.append(n)
+        renamed_pair = (n, base)
     renamed_enum = []
     if feat.get("renamed_enum") and enum_defs:
         n = fresh([x + "_re" for x in NAME_POOL])
@@ -302,6 +305,10 @@ def gen_schema(r, name, feat):
             cands = simple_defs + enum_defs + (agg_defs if feat.get("agg_in_select") else [])
             r.shuffle(cands)
             members += cands[:r.randint(1, 3)]
+            if renamed_pair and si == 0 and r.random() < 0.6:
+                # the specialised type listed BEFORE the type it is defined from (like positive_ratio_measure / ratio_measure in the
+                # AP schemas): a typed value must keep the keyword it was written with
+                members = [renamed_pair[0], renamed_pair[1]] + [m for m in members if m not in renamed_pair]
             if r.random() < 0.7:
                 members += r.sample(ent_names, min(len(ent_names), r.randint(1, 2)))
             if feat.get("select_of_select") and select_defs and r.random() < 0.6:
@@ -476,7 +483,8 @@ def _str_body(r, rich=True):
         elif c < 0.84:
             out.append("\\\\")
         elif c < 0.88:
-            out.append("\\S\\" + r.choice("ABCabc"))
+            # PAGE directive: \S\ + any CHARACTER of the basic alphabet - including a (single) apostrophe and a reverse solidus
+            out.append("\\S\\" + r.choice("ABCabc" "ABCabc" "'\\ 7(#;"))
         elif c < 0.91:
             out.append("\\P" + r.choice("ABCDEFGHI") + "\\")
         elif c < 0.94:
@@ -862,7 +870,7 @@ _TOK = re.compile(rb"""
   | (?P<ref>\#[0-9]+)
   | (?P<real>[+-]?[0-9]+\.[0-9]*(?:E[+-]?[0-9]+)?)
   | (?P<int>[+-]?[0-9]+)
-  | (?P<str>'(?:[^']|'')*')
+  | (?P<str>'(?:\\X[24]\\[0-9A-F]*\\X0\\|\\X\\[0-9A-F][0-9A-F]|\\P[A-I]\\|\\S\\.|\\\\|[^'\\]|''|\\)*')
   | (?P<bin>"[0-3][0-9A-F]*")
   | (?P<enum>\.[A-Z_][A-Z0-9_]*\.)
   | (?P<kw>!?[A-Za-z_][A-Za-z0-9_\-]*)
